@@ -516,6 +516,12 @@ func (c *core) commit(block *hg.Block) error {
 		block.Body.StateHash = commitResponse.StateHash
 		block.Body.InternalTransactionReceipts = commitResponse.InternalTransactionReceipts
 
+		// Save the block with the application's response, even if this node
+		// does not get to sign it.
+		if err := c.hg.Store.SetBlock(block); err != nil {
+			return err
+		}
+
 		// Sign the block if we belong to its validator-set
 		blockPeerSet, err := c.hg.Store.GetPeerSet(block.RoundReceived())
 		if err != nil {
